@@ -27,7 +27,7 @@ C12_CFG = dict(schema='swift', omitted=True, annot_bias=True, max_ns=4, max_type
 @st.composite
 def cases(draw):
     kw = dict(C12_CFG)
-    if draw(st.booleans()):
+    if draw(st.integers(0, 3)) == 0:
         kw['annot_bias'] = False
     api = draw(gen.api_models(gen.Cfg(**kw)))
     other = draw(gen.api_models(gen.Cfg(schema='swift', max_ns=2, max_types=4, route_io_any=False)))
